@@ -10,6 +10,7 @@ import (
 	"fmt"
 	"strings"
 	"testing"
+	"time"
 
 	"pgregory.net/rapid"
 )
@@ -378,3 +379,76 @@ func init() {
 	reg("C14.pad", checkC14)
 	reg("C14.src", checkC14Src)
 }
+
+// ---- arbitrary (also malformed) sources below and above the tokenizer switch -----------------------
+
+type C14SoupCase struct {
+	Src BStr `json:"src"`
+	Pad int  `json:"pad"`
+}
+
+func checkC14Soup(c C14SoupCase) error {
+	src := string(c.Src)
+	pad := strings.Repeat("p", c.Pad)
+	tm := map[string]string{"inc1": "I{{ a }}", "t1": "T[{% block b %}{% endblock %}]", "lib": "{% macro m0(x) %}M{{ x }}{% endmacro %}"}
+	ctx := map[string]interface{}{"a": 1, "b": "bee", "xs": []interface{}{3, 1, 2}, "m": map[string]interface{}{"k1": 4}}
+	run := func(s string) Res {
+		e := newEngine(tm)
+		NewSpies().Install(e)
+		return guardT(10*time.Second, func() (string, error) {
+			t, err := e.ParseTemplate(s)
+			if err != nil {
+				return "", err
+			}
+			return t.Render(ctx)
+		})
+	}
+	small, big := run(src), run(src+pad)
+	if small.Hang || big.Hang {
+		return nil // non-termination is C05's subject
+	}
+	if small.Panic != "" || big.Panic != "" {
+		if (small.Panic != "") != (big.Panic != "") {
+			return fmt.Errorf("source %s: %v as written but %v with %d bytes of literal text appended", q(trunc(src)), small, short(big), c.Pad)
+		}
+		return nil // panics alike: C05's subject
+	}
+	if (small.Err != "") != (big.Err != "") {
+		return fmt.Errorf("appending %d bytes of literal text changes whether the source is accepted: %s gives %v as written, %v when longer", c.Pad, q(trunc(src)), small, short(big))
+	}
+	if small.Err != "" {
+		return nil
+	}
+	if big.Out != small.Out+pad && !(strings.Contains(src, "extends") && big.Out == small.Out) {
+		return fmt.Errorf("source %s renders %s as written but %s with %d bytes of literal text appended", q(trunc(src)), q(small.Out), q(trunc(big.Out)), c.Pad)
+	}
+	return nil
+}
+
+func TestC14Soup(t *testing.T) {
+	r := NewRec(t, "C14", "sources assembled from syntax fragments (valid tags, dashes, keywords, quotes, backslashes, raw bytes), often malformed, read once as written and once with 4100..9000 bytes of plain literal text appended, i.e. by the two tokenizers; oracle: accepted in both or in neither, and the longer one renders the shorter one's output plus the text; non-trivial = the source contains a tag delimiter and is <= 4096 bytes")
+	defer r.Flush()
+	frags := append([]string{}, hostileTokens...)
+	frags = append(frags, " ", " ", "\n", "a", "xs", "m.k1", "{{ a }}", "{{ a -}}", "{{- a }}", "{%- if a -%}", "{% if a %}", "{% for i in xs %}", "{% endfor %}", "{% endif -%}", "{% set v = 1 %}", "{% include 'inc1' %}",
+		"{% extends 't1' %}", "{% block b %}", "{% endblock %}", "{% macro m(x, y = 1) %}", "{% endmacro %}", "{% import 'lib' as l %}", "{% verbatim %}", "{% endverbatim %}", "{% apply upper %}", "{% endapply %}",
+		"{#", "#}", "{# c #}", "{##}", "\\{{", "\\{%", "{{-}}", "{%-%}", "{{}}", "{%%}", "{{ 'a}}b' }}", "{{ \"%}\" }}", "a|b", "[1, 2]", "{'k': 1}", "'str'", "\"dq\"", "{% else %}", "-}}", "-%}", "{{-", "{%-")
+	rapid.Check(t, func(rt *rapid.T) {
+		n := rapid.IntRange(1, 12).Draw(rt, "n")
+		var b strings.Builder
+		for i := 0; i < n; i++ {
+			if rapid.IntRange(0, 11).Draw(rt, "raw") == 0 {
+				b.Write(rapid.SliceOfN(rapid.Byte(), 1, 3).Draw(rt, "bytes"))
+			} else {
+				b.WriteString(rapid.SampledFrom(frags).Draw(rt, "frag"))
+			}
+		}
+		c := C14SoupCase{Src: BStr(b.String()), Pad: rapid.SampledFrom([]int{4100, 4200, 9000}).Draw(rt, "pad")}
+		src := string(c.Src)
+		r.Case(src, strings.Contains(src, "{{") || strings.Contains(src, "{%") || strings.Contains(src, "{#"), q(trunc(src)))
+		if err := checkC14Soup(c); err != nil {
+			r.Fail(rt, "C14.soup", c, err)
+		}
+	})
+}
+
+func init() { reg("C14.soup", checkC14Soup) }
